@@ -68,17 +68,40 @@ theorem read_follows_link (fs : FS) (cpath tp : Path) (b : Bytes)
   | nil => exact absurd rfl htp
   | cons x xs => simp [FS.readFile, FS.resolveFuel, FS.resolve, hl, FS.targetPath, ht]
 
-/-- Declared size / integrity are enforced by the same checks as for writers: the link commit
-answers the size error when the declared size differs from the target's length. -/
+/-- Declared size / integrity are enforced by the same checks as for writers.  With a declared
+size that differs from the target's length (and no declared integrity), whatever the calls answer
+the link commit answers **exactly the size error** `.error (.size n len)`, unless the link phase
+failed before the checks were reached: then an I/O error of the link phase (or `panic`: a computed
+integrity without content path, excluded for digests of ≥ 2 bytes, or `mkTempLink` answering
+neither a path nor an error, which no run does — `C20.lcommit_no_panic`).  Never `.ok`, never
+another error.  The decision order (link phase, integrity, size) on any filesystem is
+`C19x.linkto_size_exact`; total correctness in the four situations at the address is
+`C19x.link_declared_size_mismatch_total`. -/
 theorem linkto_size_enforced (l : Linker) (n : Nat) (hn : l.opts.size = some n) (hne : n ≠ l.data.length)
     (hs : l.opts.sri = none) :
-    AllCallsR (fun _ => True) (fun r => ∀ s, r ≠ .ok s) (lcommit cfg l) := by
-  unfold lcommit
+    AllCallsR (fun _ => True)
+      (fun r => r = .error (.size n l.data.length) ∨ (∃ e, r = .error (.io e)) ∨ r = .error .panic)
+      (lcommit cfg l) := by
+  unfold lcommit dropTmp
   simp only [hn, hs, hne, ne_eq, not_false_eq_true, if_true]
   repeat' ac_step
   all_goals first
-    | (intro s h; cases h)
     | trivial
+    | exact Or.inl rfl
+    | exact Or.inr (Or.inl ⟨_, rfl⟩)
+    | exact Or.inr (Or.inr rfl)
+    | exact Or.inl trivial
+    | exact Or.inr (Or.inr trivial)
+    | exact Or.inr (Or.inl trivial)
+    | exact Or.inr (Or.inl ⟨_, trivial⟩)
+
+/-- The weaker reading kept for reference: such a commit never answers ok. -/
+theorem linkto_size_never_ok (l : Linker) (n : Nat) (hn : l.opts.size = some n)
+    (hne : n ≠ l.data.length) (hs : l.opts.sri = none) :
+    AllCallsR (fun _ => True) (fun r => ∀ s, r ≠ .ok s) (lcommit cfg l) :=
+  (linkto_size_enforced cfg l n hn hne hs).mono (fun _ h => h) (fun r h s hr => by
+    subst hr
+    rcases h with h | ⟨e, h⟩ | h <;> cases h)
 
 /-! ### total correctness of the link commit (healthy run), incl. the replacement of an earlier link
 (F18) unless it already leads to the target's file.  Proofs in `Lemmas/LinkRefine.lean`; `hd` / `ht`: the directory chains of the address and of
